@@ -73,6 +73,19 @@ fn rows_ok(data: &[u8], n: usize, parse: impl Fn(&str) -> Result<usize, String>,
     Ok(())
 }
 
+/// rows of records without any valid k-mer window must be all-zero (`vals` = the numeric values of one row)
+fn zero_row_where_nothing(recs: &[Rec], k: usize, rows: &[Vec<f64>]) -> Result<(), (String, String)> {
+    for (i, (r, row)) in recs.iter().zip(rows.iter()).enumerate() {
+        if model::windows(&r.seq, k).is_empty() && row.iter().any(|&x| x != 0.0) {
+            return Err((
+                "nonzero-row-for-record-without-kmers".into(),
+                format!("record {} ({:?}, {} bytes) has no valid {}-mer window but its row is not all-zero", i, r.id, r.seq.0.len(), k),
+            ));
+        }
+    }
+    Ok(())
+}
+
 pub fn validate(c: &Case, o: &Outcome) -> Result<(), (String, String)> {
     let cmd = &c.cmd;
     let n = c.recs.len();
@@ -91,7 +104,11 @@ pub fn validate(c: &Case, o: &Outcome) -> Result<(), (String, String)> {
         Sub::Oligo => {
             let kc = model::closed_form_count(cmd.k as usize) as usize;
             let d = cmd.preset.delim();
-            rows_ok(data, n, |l| io::parse_row(l, d).map(|r| r.len()), Some(kc), cmd.header)
+            rows_ok(data, n, |l| io::parse_row(l, d).map(|r| r.len()), Some(kc), cmd.header)?;
+            let lines = io::lines_strict(data).unwrap();
+            let body = if cmd.header { &lines[1..] } else { &lines[..] };
+            let rows: Vec<Vec<f64>> = body.iter().map(|l| io::parse_row(l, d).unwrap()).collect();
+            zero_row_where_nothing(&c.recs, cmd.k as usize, &rows)
         }
         Sub::Cgr => {
             let lines = io::lines_strict(data).map_err(|e| ("malformed-output".to_string(), e))?;
@@ -108,17 +125,23 @@ pub fn validate(c: &Case, o: &Outcome) -> Result<(), (String, String)> {
         }
         Sub::KCgr => {
             let kc = model::closed_form_count(cmd.k as usize) as usize;
-            rows_ok(data, n, |l| io::parse_tuples(l, 3).map(|r| r.len()), Some(kc), false)
+            rows_ok(data, n, |l| io::parse_tuples(l, 3).map(|r| r.len()), Some(kc), false)?;
+            let rows: Vec<Vec<f64>> = io::lines_strict(data).unwrap().iter().map(|l| io::parse_tuples(l, 3).unwrap().iter().map(|t| t[2]).collect()).collect();
+            zero_row_where_nothing(&c.recs, cmd.k as usize, &rows)
         }
         Sub::Cov => {
             let d = cmd.preset.delim();
             rows_ok(data, n, |l| io::parse_row(l, d).map(|r| r.len()), Some(cmd.bin_count as usize), false)?;
             let kc = o.files.get("kmers.counts").ok_or_else(|| ("no-output".to_string(), "kmers.counts missing".to_string()))?;
             io::parse_counts(kc).map_err(|e| ("malformed-counts".to_string(), e))?;
-            Ok(())
+            let rows: Vec<Vec<f64>> = io::lines_strict(data).unwrap().iter().map(|l| io::parse_row(l, d).unwrap()).collect();
+            zero_row_where_nothing(&c.recs, cmd.k as usize, &rows)
         }
         Sub::Ctr => {
             let lines = io::parse_counts(data).map_err(|e| ("malformed-counts".to_string(), e))?;
+            if !lines.is_empty() && c.recs.iter().all(|r| model::windows(&r.seq, cmd.k as usize).is_empty()) {
+                return Err(("kmers-counted-where-none-exist".into(), format!("no record holds a valid {}-mer, yet {} k-mers are listed (first {:?})", cmd.k, lines.len(), lines[0])));
+            }
             for (k, cnt) in lines {
                 if cnt == 0 {
                     return Err(("zero-count-line".into(), format!("k-mer {} listed with count 0", k)));
@@ -188,6 +211,7 @@ pub fn check_case(c: &Case) -> Verdict {
     v.class_if(!c.recs.is_empty() && c.recs.iter().all(|r| r.seq.0.is_empty()), "all-empty");
     v.class_if(!c.recs.is_empty() && c.recs.iter().all(|r| !r.seq.0.is_empty() && r.seq.0.iter().all(|&b| !model::is_base(b))), "all-ambiguous");
     v.class_if(c.recs.iter().any(|r| !r.seq.0.is_empty() && r.seq.0.len() < scale), "shorter-than-scale");
+    v.class_if(c.recs.iter().any(|r| r.seq.0.iter().any(|&b| b >= 0x80)), "utf8-two-byte-characters");
     if cmd.sub == Sub::Min {
         v.class(if w == 0 { "min-w0" } else { "min-w>0" });
     }
@@ -253,7 +277,20 @@ fn case_strategy(tier: Tier, cli: bool) -> BoxedStrategy<Case> {
                 _ => [k, 0, 0],
             };
             let p = RecParams { max_records: tier.pick(8, 20), scale: bounds[0].max(1), max_len: 90, degenerate_w: 7, bounds, nuc_only: false };
-            (gen::records_in_container(p), gen::records(p)).prop_map(move |((recs, cont), alt)| Case { recs, alt, cont, cmd: cmd.clone(), via_cli: cli })
+            (gen::records_in_container(p), gen::records(p), prop_oneof![6 => Just(None), 1 => (any::<u16>(), gen::utf8_seq(40)).prop_map(Some)]).prop_map(move |((mut recs, mut cont), alt, utf8)| {
+                // one record made of (or mixed with) two-byte UTF-8 characters: ambiguous bytes >= 0x80;
+                // only on unwrapped lines, and not for whole-sequence CGR cases that must stay nucleotide-only
+                if let Some((i, s)) = utf8 {
+                    if !recs.is_empty() && !(cont.is_fastq() && s.is_empty()) {
+                        let idx = crate::util::idx16(i, recs.len());
+                        recs[idx].seq = crate::util::Bytes(s);
+                        if let crate::gen::Format::Fasta { wrap } = &mut cont.format {
+                            *wrap = None;
+                        }
+                    }
+                }
+                Case { recs, alt, cont, cmd: cmd.clone(), via_cli: cli }
+            })
         })
         .boxed()
 }
